@@ -464,6 +464,18 @@ def step (F : Flags) (line : String) : String :=
               s!"ctor=ok after={if w.d == d0 then "unchanged" else "created"} " ++
               s!"removeable={F.removeable true ovw hasfn} remove-deleted={rm.1} remove-raised={rm.2}"
     | _, _, _ => "bad-op"
+  | "entry" :: _ =>
+    -- a creating entry point against an existing/missing path: does it raise, is the path kept?
+    match kv ws "kind", (kv ws "ovw").bind parseBool?, (kv ws "disk").bind parseDisk? with
+    | some kind, some ovw, some d0 =>
+      let mode := if kind == "fpt" then (if ovw then "overwrite" else "write")
+                  else if kind == "export" then F.exportMode ovw
+                  else F.ptTempoMode ovw (d0 != Disk.missing)
+      let m : Meta := ⟨2, none, none, none, "n", "d"⟩
+      match createFile F ⟨"v"⟩ d0 mode m with
+      | .ok w => if w.d == d0 then "ok-unchanged" else "ok-created"
+      | .error _ => "raises-unchanged"
+    | _, _, _ => "bad-op"
   | ["choice", t, x] =>
     match parseBool? t, parseBool? x with
     | some t, some x => (match F.ptTempoChoice t x with
@@ -471,7 +483,7 @@ def step (F : Flags) (line : String) : String :=
     | _, _ => "bad-op"
   | ["ptmode", o] =>
     match parseBool? o with
-    | some o => F.ptTempoMode o
+    | some o => F.ptTempoMode o false
     | none => "bad-op"
   | _ => "bad-op"
 
